@@ -211,4 +211,79 @@ theorem oldest_idle_evicted_at_limit {st : St} (h : Reachable st) (p : Peer) (hl
       show st.next ≠ o.sid
       omega
 
+
+/-! ### teardown -/
+
+theorem run_freed (st : St) (hf : st.freed = true) : ∀ es, st.run es = st := by
+  intro es
+  induction es with
+  | nil => rfl
+  | cons e t ih =>
+    show St.run (st.step e).1 t = st
+    have : (st.step e).1 = st := by unfold St.step; simp [hf]
+    rw [this]; exact ih
+
+theorem run_append (st : St) (a b : List Event) : st.run (a ++ b) = (st.run a).run b := by
+  unfold St.run; rw [List.foldl_append]
+
+def td1 (st : St) : St := st.dropHolders (st.holders.filter fun h => isAnyObs h.kind)
+def td2 (st : St) : St := (td1 st).dropHolders ((td1 st).holders.filter fun h => isNode h.kind)
+def td3 (st : St) : St := (td2 st).dropHolders ((td2 st).holders.filter fun h => isAsync h.kind)
+
+def td4 (st : St) : St := (td3 st).eps.foldl St.freeEndpoint (td3 st)
+def tdEnd (st : St) : St :=
+  { ((td4 st).freeObjs (td4 st).ctxObjs) with ctxObjs := [], resAlive := [], freed := true }
+
+theorem step_free_eq (st : St) (hf : st.freed = false) : (st.step .freeContext).1 = tdEnd st := by
+  unfold St.step
+  simp only [hf, Bool.false_eq_true, if_false]
+  rfl
+
+/-- After `coap_free_context` — at ANY point of ANY history — M's allocation ledger is accepted by the verified
+monitor: every object allocated since the context was created (sessions, subscriptions, async entries, queue nodes,
+endpoints, resources, the context) has been freed exactly once, nothing was freed twice or without having been
+allocated, and no session, observer, async entry or queued message is left. -/
+theorem teardown_state_empty {st : St} (h : Reachable st) (hf : st.freed = false) :
+    ledgerOk (st.step .freeContext).1.ledger = true ∧ (st.step .freeContext).1.sessions = [] ∧
+    (st.step .freeContext).1.holders = [] ∧ (st.step .freeContext).1.freed = true := by
+  have hI := reachable_inv h
+  have h3 : Inv (td3 st) :=
+    Inv.closed.dropHolders (Inv.closed.dropHolders (Inv.closed.dropHolders hI _) _) _
+  have h4 : Inv (td4 st) := (freeEndpoints_spec (td3 st).eps (td3 st) h3).1
+  obtain ⟨hs, hh⟩ : (td4 st).sessions = [] ∧ (td4 st).holders = [] := freeEndpoints_empty h3
+  have h5 : Inv (tdEnd st) := Inv.closed.teardownEnd _ h4
+  rw [step_free_eq st hf]
+  refine ⟨?_, hs, hh, rfl⟩
+  obtain ⟨live, hr, hc⟩ := h5.L
+  have hnil : live = [] := by
+    apply List.eq_nil_iff_forall_not_mem.mpr
+    intro i hi
+    have h1 : 0 < live.count i := List.count_pos_iff.mpr hi
+    rw [hc i, objects_count] at h1
+    have e1 : (tdEnd st).sids = [] := by show (td4 st).sessions.map _ = []; rw [hs]; rfl
+    have e2 : (tdEnd st).allocHids = [] := by
+      show ((td4 st).holders.filter _).map _ = []; rw [hh]; rfl
+    have e3 : (tdEnd st).ctxObjs = [] := rfl
+    rw [e1, e2, e3] at h1
+    simp at h1
+  rw [ledgerOk_eq_true_iff, hr, hnil]
+
+/-- the same for a history that goes on after the teardown (nothing that follows has any effect) -/
+theorem teardown_ledger_empty (eps : List (Nat × Nat)) (nres : Nat) (es₁ es₂ : List Event)
+    (hf : ((St.init eps nres).run es₁).freed = false) :
+    ledgerOk ((St.init eps nres).run (es₁ ++ .freeContext :: es₂)).ledger = true := by
+  have h := teardown_state_empty ⟨eps, nres, es₁, rfl⟩ hf
+  rw [run_append]
+  show ledgerOk (St.run (((St.init eps nres).run es₁).step .freeContext).1 es₂).ledger = true
+  rw [run_freed _ h.2.2.2]
+  exact h.1
+
+/-- and at every moment before, every free in M's ledger hit a live object (no double free, no free of something
+unallocated, in any prefix of any history) -/
+theorem ledger_never_bad {st : St} (h : Reachable st) : NoDoubleFree st.ledger ∧ NoFreeOfUnallocated st.ledger := by
+  obtain ⟨live, hr, _⟩ := (reachable_inv h).L
+  have := (runLedger_isSome_iff st.ledger []).mp ⟨live, hr⟩
+  obtain ⟨a, b⟩ := (goodFrom_nil_iff st.ledger).mp this
+  exact ⟨b, a⟩
+
 end Coap.C12
